@@ -7,11 +7,11 @@ package fragmentbuffer
 // entry is nil.
 
 //@ define wfmaps(f) (f.cache != nil && forallU16(func(s uint16) bool { return hasKey(f.cache, s) ==> f.cache[s] != nil && f.cache[s].fragmentByOffset != nil }))
-//@ define wffrags(f) forallU16(func(s uint16) bool { return hasKey(f.cache, s) ==> forallU32(func(o uint32) bool { return hasKey(f.cache[s].fragmentByOffset, o) ==> allocated(f.cache[s].fragmentByOffset[o]) }) })
+//@ define wffrags(f) forallU16(func(s uint16) bool { return hasKey(f.cache, s) ==> forallU32(func(o uint32) bool { return hasKey(f.cache[s].fragmentByOffset, o) ==> allocated(f.cache[s].fragmentByOffset[o]) && allocated(&f.cache[s].fragmentByOffset[o].data) }) })
 //@ define wfkeys(f) forallU16(func(s uint16) bool { return hasKey(f.cache, s) ==> s >= f.currentMessageSequenceNumber })
 //@ define FRAG(f, s, o) f.cache[s].fragmentByOffset[o]
 //@ define wfdata(f) forallU16(func(s uint16) bool { return hasKey(f.cache, s) ==> forallU32(func(o uint32) bool { return hasKey(f.cache[s].fragmentByOffset, o) ==>
-//@     FRAG(f, s, o).handshakeHeader.FragmentOffset == o && FRAG(f, s, o).handshakeHeader.MessageSequence == s && len(FRAG(f, s, o).data) == int(FRAG(f, s, o).handshakeHeader.FragmentLength) }) })
+//@     FRAG(f, s, o).handshakeHeader.FragmentOffset == o && o <= 0xFFFFFF && FRAG(f, s, o).handshakeHeader.FragmentLength <= 0xFFFFFF && FRAG(f, s, o).handshakeHeader.Length <= 0xFFFFFF && FRAG(f, s, o).handshakeHeader.MessageSequence == s && len(FRAG(f, s, o).data) == int(FRAG(f, s, o).handshakeHeader.FragmentLength) }) })
 //@ define wf(f) (f != nil && wfmaps(f) && wffrags(f))
 //@ define wf2(f) (wfkeys(f) && wfdata(f))
 // Buffering limits (C08): fragmentBufferMaxSize = 2000000 bytes, fragmentBufferMaxCount = 1000 fragments; one more datagram
@@ -34,7 +34,11 @@ package fragmentbuffer
 
 //@ func FragmentBuffer.Pop
 //@ requires wf: wf(f)
+//@ requires wf-keys: wfkeys(f)
+//@ requires wf-data: wfdata(f)
 //@ ensures wf: wf(f)
+//@ ensures wf-keys: wfkeys(f)
+//@ ensures wf-data: wfdata(f)
 //@ ensures absent-gives-nil: !old(hasKey(f.cache, CUR(f))) ==> content == nil
 //@ ensures incomplete-gives-nil: old(hasKey(f.cache, CUR(f))) && old(ENTRY(f).fragmentsLength != ENTRY(f).handshakeLength) ==> content == nil
 //@ ensures no-first-fragment-gives-nil: old(hasKey(f.cache, CUR(f))) && !old(hasKey(ENTRY(f).fragmentByOffset, 0)) ==> content == nil
@@ -53,6 +57,7 @@ package fragmentbuffer
 //@     && content[4] == byte(old(ENTRY(f).fragmentByOffset[0].handshakeHeader.MessageSequence) >> 8) && content[5] == byte(old(ENTRY(f).fragmentByOffset[0].handshakeHeader.MessageSequence))
 //@     && U24(content, 6) == 0 && U24(content, 9) == U24(content, 1)
 //@ ensures success-epoch: content != nil ==> epoch == old(ENTRY(f).fragmentByOffset[0].recordLayerHeader.Epoch)
+//@ ensures nothing-below-cursor: forallU16(func(s uint16) bool { return s < CUR(f) && CUR(f) != 0 ==> !hasKey(f.cache, s) })
 //@ end
 
 // Receiving fragments. A fragment whose message sequence is below the delivery cursor belongs to an
@@ -110,8 +115,24 @@ package fragmentbuffer
 //@ ensures accepted-below-limit: isHandshake ==> f.totalBufferSize < fragmentBufferMaxSize
 //@ end
 
+// AdvanceTo never moves the cursor backwards; moving it forward discards every entry below the new
+// cursor and keeps the others.
+
 //@ func FragmentBuffer.AdvanceTo
 //@ requires wf: wf(f)
+//@ requires wf-keys: wfkeys(f)
+//@ requires wf-data: wfdata(f)
 //@ ensures wf: wf(f)
+//@ ensures wf-keys: wfkeys(f)
+//@ ensures wf-data: wfdata(f)
+//@ ensures never-backwards: messageSequence <= old(CUR(f)) ==> CUR(f) == old(CUR(f)) && len(f.cache) == old(len(f.cache)) && f.totalBufferSize == old(f.totalBufferSize) && f.totalFragmentCount == old(f.totalFragmentCount)
+//@ ensures forwards: messageSequence > old(CUR(f)) ==> CUR(f) == messageSequence
+//@ ensures nothing-below-cursor: forallU16(func(s uint16) bool { return s < CUR(f) ==> !hasKey(f.cache, s) })
+//@ ensures others-kept: forallU16(func(s uint16) bool { return s >= CUR(f) ==> hasKey(f.cache, s) == old(hasKey(f.cache, s)) && f.cache[s] == old(f.cache[s]) })
+//@ ensures never-grows: len(f.cache) <= old(len(f.cache))
 //@ loop #1: wf: wf(f)
+//@ loop #1: wf-data: wfdata(f)
+//@ loop #1: cursor-kept: CUR(f) == old(CUR(f)) && messageSequence > CUR(f)
+//@ loop #1: only-below-removed: forallU16(func(s uint16) bool { return (hasKey(f.cache, s) ==> old(hasKey(f.cache, s))) && (s >= messageSequence ==> hasKey(f.cache, s) == old(hasKey(f.cache, s))) && (hasKey(f.cache, s) ==> f.cache[s] == old(f.cache[s])) })
+//@ loop #1: never-grows: len(f.cache) <= old(len(f.cache))
 //@ end
